@@ -3,7 +3,7 @@
 Unit: sismic.io.import_from_yaml (ruamel load, schema validation, import_from_dict, Statechart.add_state/
 add_transition/validate) on documents dumped from dictionaries.  Solver-enumerated (finite domains; the
 solver is a generator here, said plainly): a valid document built from a generated chart, a fault kind
-from the property's list, its position, 0..2 faults.  Oracle: a document with no fault must be accepted
+from the property's list, its position, 0..2 faults; guards, actions and events contain braces and % signs.  Oracle: a document with no fault must be accepted
 and the returned chart must satisfy the structural facts (checked through public queries only); a
 document with a fault must be rejected with StatechartError -- never accepted, never another exception.
 """
